@@ -1,10 +1,10 @@
 package main
 
 import (
-	"encoding/base64"
 	"bufio"
 	"bytes"
 	"context"
+	"encoding/base64"
 	"encoding/json"
 	"errors"
 	"flag"
